@@ -216,6 +216,9 @@ def strategy(tier):
         # "pot-limit up to the pot" also when the house takes a rake
         gen.cases(profiles=(1, 2, 5), games=('PO', 'PO', 'NT', 'FT'),
                   **dict(common, rake=True)),
+        # stacks that are "not mentioned" (math.inf, README)
+        gen.cases(profiles=(1, 2, 5), games=('PO', 'PO', 'NT', 'FT', 'FO8'),
+                  inf_stacks=True, chips=('int',), **common),
     )
 
 
